@@ -9,7 +9,7 @@ from __future__ import annotations
 import ast
 from typing import Dict, List, Optional, Tuple
 
-from ..loader import AnalysisError, Tree
+from ..loader import AnalysisError, Tree, short
 
 E = "jumanji.environments."
 CONVENTION = {"up": (-1, 0), "down": (1, 0), "left": (0, -1), "right": (0, 1), "noop": (0, 0), "no_op": (0, 0), "load": (0, 0)}
@@ -240,31 +240,33 @@ def add_obligations(res, tree: Tree, rule: str, only_mask_tables: bool = False) 
         ok_idx = const_name in cvals and cvals[const_name] == i
         ob(f"{f.module.relpath}:{f.node.lineno}", "routing.connector.utils.move_position", f"branch {i} of the switch is the action constant {const_name}", ok_idx,
            f"{const_name} = {cvals.get(const_name)}; branch index {i}")
-    g = None
-    for q, fi in tree.functions.items():
-        if q.startswith(E + "routing.connector.generator.") and q.endswith("._action_from_tuple"):
-            g = fi
-    if g is None:
-        raise AnalysisError("connector generator _action_from_tuple not found")
-    mult = None
-    tuples = None
-    for call in ast.walk(g.node):
-        if not (isinstance(call, ast.Call) and ast.unparse(call.func).endswith("array") and call.args and isinstance(call.args[0], ast.List)):
+    # the generator's displacement -> action translation, located by what it contains (a list of action constants and
+    # a list of displacement comparisons), not by its name
+    g = mult = tuples = None
+    for q, fi in sorted(tree.functions.items()):
+        if not q.startswith(E + "routing.connector.generator.") or isinstance(fi.node, ast.Lambda):
             continue
-        elts = call.args[0].elts
-        if elts and all(isinstance(x, ast.Name) and direction_of(x.id) for x in elts) and mult is None:
-            mult = [x.id for x in elts]
-        elif elts and all(any(isinstance(c, ast.Compare) for c in ast.walk(x)) for x in elts) and tuples is None:
-            tuples = []
-            for x in elts:
-                lits = [fold(tree, g.module, c) for c in ast.walk(x) if isinstance(c, ast.Call) and ast.unparse(c.func).endswith("array")]
-                lits = [l for l in lits if isinstance(l, list) and len(l) == 2 and all(isinstance(v, int) for v in l)]
-                tuples.append(tuple(lits[0]) if lits else None)
-    if mult is None or tuples is None or len(mult) != len(tuples):
-        raise AnalysisError("connector generator _action_from_tuple: multiplier / tuple list not recognised")
+        m_ = t_ = None
+        for call in ast.walk(fi.node):
+            if not (isinstance(call, ast.Call) and ast.unparse(call.func).endswith("array") and call.args and isinstance(call.args[0], (ast.List, ast.Tuple))):
+                continue
+            elts = call.args[0].elts
+            if elts and all(isinstance(x, ast.Name) and direction_of(x.id) for x in elts) and m_ is None:
+                m_ = [x.id for x in elts]
+            elif elts and all(any(isinstance(c, ast.Compare) for c in ast.walk(x)) for x in elts) and t_ is None:
+                t_ = []
+                for x in elts:
+                    lits = [fold(tree, fi.module, c) for c in ast.walk(x) if isinstance(c, ast.Call) and ast.unparse(c.func).endswith("array")]
+                    lits = [l for l in lits if isinstance(l, list) and len(l) == 2 and all(isinstance(v, int) for v in l)]
+                    t_.append(tuple(lits[0]) if lits else None)
+        if m_ is not None and t_ is not None and len(m_) == len(t_):
+            g, mult, tuples = fi, m_, t_
+            break
+    if g is None:
+        raise AnalysisError("connector generator: no function pairing displacement tests with action constants was recognised")
     for nm, tp in zip(mult, tuples):
         d = direction_of(nm)
-        ob(g.loc(), "routing.connector.generator._action_from_tuple", f"displacement {tp} is paired with action {nm}", d is not None and tp == CONVENTION[d], f"'{d}' means {CONVENTION.get(d)}")
+        ob(g.loc(), short(g.qual), f"displacement {tp} is paired with action {nm}", d is not None and tp == CONVENTION[d], f"'{d}' means {CONVENTION.get(d)}")
     # ---- PacMan: the three copies of the player-move table agree
     copies = []
     for q in ("routing.pac_man.env.PacMan.player_step", "routing.pac_man.utils.player_step", "routing.pac_man.utils.ghost_move"):
